@@ -112,6 +112,19 @@ def streams(tier, rng, P, only=None, cases=None):
             parts = [("%s %s" % (call, t2)) for _ in range(k - 1)] + [call if tail.startswith(":") else "%s %s" % (call, tail)]
             b = "%sl8 %s g" % (d, " ".join(parts))
             cs.append(dict(req="compile2 %s %s" % (hx(a), hx(b)), src=a, un=b, show=a, jump=True, sexp=None, key="mcolon%d" % j))
+        # a tie mark at the end of a pass (before `]` or `:`): the pending tie carries into the next pass / out of the loop exactly as in
+        # the unrolled text
+        for j in range(60 if big else 16):
+            k = rng.choice([2, 3, 4]); nn = lambda: rng.choice("cdefgab") + rng.choice(["", "", "8", "4"])
+            head = [nn() for _ in range(rng.randrange(0, 3))] + [nn() + "&"]
+            tail = rng.choice(["e", "c d", "r", "n60"])
+            if rng.random() < 0.5:
+                a = "[%d %s]" % (k, " ".join(head)); b = " ".join(head * k)
+            else:
+                rest = [nn() for _ in range(rng.randrange(1, 3))]
+                a = "[%d %s : %s]" % (k, " ".join(head), " ".join(rest)); b = " ".join((head + rest) * (k - 1) + head)
+            wrap = rng.choice(["l4 %s " + tail, "l4 %s " + tail, "l8 Sub{%s " + tail + "} g", "Slur(1) l4 %s " + tail, "#A={%s} l4 #A " + tail])
+            cs.append(dict(req="compile2 %s %s" % (hx(wrap % a), hx(wrap % b)), src=wrap % a, un=wrap % b, show=wrap % a, jump=True, sexp=None, key="tieend%d" % j))
         for j, (a, b) in enumerate([("#A={c} [2 #A #A={d}] e", "#A={c} #A #A={d} #A #A={d} e"), ("#A={c:d} [3 #A e] g", "#A={c:d} #A e #A e #A e g")]):
             cs.append(dict(req="compile2 %s %s" % (hx(a), hx(b)), src=a, un=b, show=a, jump=True, sexp=None, key="mfix%d" % j))
         for j, (a, b) in enumerate([("[1 c : [2 d] e] f", "c f"), ("[c d]", "c d c d"), ("[3 c : d]", "c d c d c"), ("{[2 c d]}4", "{c d c d}4"), ("Sub{[2 c : >]} e", "Sub{c > c} e")]):
